@@ -126,8 +126,8 @@ def check_table(ctx):
             if isinstance(t, ast.UnaryOp) and isinstance(t.op, ast.Not) and isinstance(t.operand, ast.Call) and ast.unparse(t.operand.func) == "isinstance":
                 ctx.ob("R16.1", "%s.gate2zx:%s" % (ZX, ",".join(class_names(t.operand))), False, found=ast.unparse(t), required="the case is taken by the gates of that class (and only them)", mod=ZX, node=st,
                        sig="entry-negated")
-            else:
-                raise AnalysisError("gate2zx: the case `if %s` is not selected by the class of the gate; cannot decide which gates reach it" % ast.unparse(t)[:60])
+            else:           # remembered, not raised: the coverage and lookup obligations below may still establish a violation
+                ctx.broken = ctx.broken or "gate2zx: the case `if %s` is not selected by the class of the gate; cannot decide which gates reach it" % ast.unparse(t)[:60]
         elif isinstance(st, ast.Assign) and isinstance(st.value, ast.Dict):
             try:
                 d = FoldZX(dict(BASE)).visit(st.value)
@@ -239,14 +239,14 @@ def ret_expr(body):
 
 def check(ctx):
     ctx.rule("R16.5", "generators: Z / X / Y(m, n, phase=0) have m input and n output wires and the given phase as data; H is 1 -> 1; a scalar has no wires")
-    check_generators(ctx)
+    ctx.attempt(check_generators, ctx)
     ctx.floor("R16.5", 11)
     ctx.rule("R16.1", "every gate2zx entry, as a closed ZX term in the reference algebra, is proportional to the reference matrix of the gate it is keyed by, with the same arity")
     ctx.rule("R16.2", "circuit2zx is the rigid functor qubit -> one wire, gate -> gate2zx(gate), into zx.Diagram")
     ctx.rule("R16.3", "dagger of ZX generators: spiders swap legs and negate the phase, scalars conjugate, H is fixed")
-    check_table(ctx)
-    check_functor(ctx)
-    check_daggers(ctx)
+    ctx.attempt(check_table, ctx)
+    ctx.attempt(check_functor, ctx)
+    ctx.attempt(check_daggers, ctx)
     ctx.rule("R16.4", "gate2zx finds a gate in its table by equality and hash: equal gates (e.g. the result of H.dagger()) hash equal (C03)")
     m = ctx.model
     for c in sorted(m.classes.values(), key=lambda c: c.q):
